@@ -154,6 +154,7 @@ type Plan struct {
 	Gap      []int `json:"gap,omitempty"`       // unreachable junk words placed before object i (0..3)
 	ZeroOff  []int `json:"zero_off,omitempty"`  // zero-sized struct pointer: 0 => offset -1; else some other in-bounds non-zero offset
 	Junk     byte  `json:"junk,omitempty"`      // fill byte of junk words
+	PadFill  byte  `json:"pad_fill,omitempty"`  // bit/primitive lists: unused bits of the last byte and the bytes up to the word boundary are filled from this byte (opt-in; gen.Plan leaves it zero)
 }
 
 func pick(s []int, i int) int {
@@ -336,6 +337,16 @@ func Encode(g Graph, plan Plan) (*Layout, error) {
 		case o.LK == LPtr || o.LK == LVoid:
 		default:
 			copy(L.Segs[s][base:], o.Data)
+			if plan.PadFill != 0 {
+				body := L.Segs[s][base : base+o.Words()*8]
+				for k := len(o.Data); k < len(body); k++ {
+					body[k] = plan.PadFill
+				}
+				if o.LK == LBit && o.N%8 != 0 {
+					mask := byte(0xff) << uint(o.N%8)
+					body[o.N/8] |= plan.PadFill & mask
+				}
+			}
 		}
 	}
 	// pointers
